@@ -184,6 +184,9 @@ class FixedMarginBusiness(Sector):
         self.LabourInputName = labour_input_name
         self.OutputName = output_name
         self.AddVariable('SUP_' + output_name, 'Supply of goods', '')
+        # The labour demand variable must exist before any Market runs _GenerateEquations(),
+        # otherwise the result depends on the order in which sectors are declared.
+        self.AddVariable('DEM_' + labour_input_name, 'Demand for labour', '')
         self.AddVariable('PROF', 'Profits', 'SUP_GOOD - DEM_' + labour_input_name)
 
     def _GenerateEquations(self):
